@@ -6,7 +6,7 @@
 (* they appear in the string (tokenised as text by the harness).           *)
 (* unit = 360 for degrees, 24 for right ascension in hours.                *)
 (***************************************************************************)
-EXTENDS Fix
+EXTENDS Fix, SexaCarry
 
 Tol9 == Dec(1, 9)
 Sixty == FromInt(60)
@@ -42,30 +42,5 @@ ReadBack(v, nd, F, unit) == ReadBackTol(v, nd, F, unit, Tol9)
 Canonical(F, unit) ==      \* integral degree/hour and minute fields, at most one full turn
   /\ Le(F[1].a, FromInt(unit)) /\ ~HasFrac(F[1].a) /\ ~HasFrac(F[2].a)
 
-\* ---- integer carry model of dms_str (design level, MC_Sexa) -------------------
-\* a non-negative value of k fine units (10^-(n+1) arcsec) printed with n decimals
-Pow(n) == IF n = 0 THEN 1 ELSE IF n = 1 THEN 10 ELSE IF n = 2 THEN 100 ELSE 1000
-ModelPrint(k, n) ==
-  LET fine == 10 * Pow(n)                       \* fine units per arcsec
-      d0 == k \div (3600 * fine)
-      r0 == k % (3600 * fine)
-      m0 == r0 \div (60 * fine)
-      sf == r0 % (60 * fine)                     \* seconds in fine units
-      sr == (sf + 5) \div 10                     \* rounded to n decimals (half up; ties are covered by the half-unit law)
-      c1 == sr = 60 * Pow(n)
-      s1 == IF c1 THEN 0 ELSE sr
-      m1 == IF c1 THEN m0 + 1 ELSE m0
-      c2 == m1 = 60
-      m2 == IF c2 THEN 0 ELSE m1
-      d1 == IF c2 THEN d0 + 1 ELSE d0
-      d2 == IF d1 >= 360 THEN d1 - 360 ELSE d1
-  IN [d |-> d2, m |-> m2, s |-> s1]              \* s in units of 10^-n arcsec
-ModelOK(k, n) ==
-  LET p == ModelPrint(k, n)
-      fine == 10 * Pow(n)
-      back == ((p.d * 3600 + p.m * 60) * Pow(n) + p.s) * 10      \* in fine units
-      full == 360 * 3600 * fine
-      diff == IF back >= k THEN back - k ELSE k - back
-  IN /\ p.m \in 0..59 /\ p.s \in 0..(60 * Pow(n) - 1) /\ p.d \in 0..359
-     /\ (diff <= 5 \/ full - diff <= 5)
+\* (the integer carry model of dms_str lives in SexaCarry.tla: integers only, shared with the Apalache instance)
 =============================================================================
